@@ -163,6 +163,13 @@ def main(argv):
     rc, out, _ = pipeline.sh([sys.executable, os.path.join(VERIF, "gen", "ast2coq.py")], timeout=600)   # coq/gen/SupportGen.v (owner: C13)
     if rc != 0 and cfg.get("scan") == 'ast':
         pre_infra.append(("gen/ast2coq.py cannot translate Support.h any more (construct outside the translated fragment)", out[-3000:]))
+    if os.path.exists(os.path.join(pipeline.COQ, f"Properties_{pid}_K.v")):
+        # coq/gen/KernelGen_*.v (owners: C02 C03 C04 C06 C07): the real kernels run over a symbolic scalar type
+        rc, out, _ = pipeline.sh([sys.executable, os.path.join(VERIF, "gen", "symkern.py")], timeout=900)
+        if rc != 0:
+            pre_infra.append(("gen/symkern.py cannot extract the kernels' expressions from the current headers "
+                              "(does not compile with the symbolic scalar, branches on a scalar value, reads an "
+                              "uninitialised scalar, throws or crashes)", out[-3000:]))
     bad = pipeline.hygiene_gate()
     ok, thms, assumptions, plog = pipeline.prove(pid)
     obligations = len(thms) + 1        # + the correspondence relation
@@ -197,6 +204,15 @@ def main(argv):
             replay_stage_only = True
     else:
         cases = cfg["gen"](seed, tier)
+    # a kernel lemma of the generated file no longer goes through: search with cases directed at that kernel and size
+    km = re.search(r'File "\./gen/(KernelGen_\w+\.v)", line (\d+)', plog or "")
+    if km and not a.replay:
+        try:
+            src = open(os.path.join(pipeline.COQ, "gen", km.group(1))).read().splitlines()[:int(km.group(2))]
+            inst = [re.match(r"Lemma k_(\w+)_ok", ln).group(1) for ln in src if re.match(r"Lemma k_(\w+)_ok", ln)][-1]
+            cases = cases + props.kernel_cases(inst, seed)
+        except Exception:
+            pass
     assert len({c.cid for c in cases}) == len(cases), "duplicate case ids"
     workdir = os.path.join(BUILD, "run", f"{pid}_{tier}" + ("_replay" if a.replay else ""))
     variants = cfg.get("variants", {}).get(tier, ["plain"])
